@@ -129,6 +129,10 @@ def classify_body(cx, ht, body):
                     out.append(('call', path, t.get('l')))
             elif kr not in ('core',) and not kr.startswith('dasp'):
                 out.append(('foreign', path, t.get('l')))
+            elif kr == 'core' and ('core::iter::adapters::fuse::' in path or path == 'core::iter::traits::iterator::Iterator::fuse'):
+                # `Fuse` DROPS the iterator it wraps as soon as that iterator returns None: wrapped around the user's
+                # (possibly heap-backed) source, the source is freed inside a steady-state `next()`
+                out.append(('call', '%s (Fuse drops the wrapped iterator when it is exhausted: user storage freed in steady state)' % path, t.get('l')))
             elif kr == 'core':
                 # `core` itself cannot allocate, but its generic functions and blanket impls run the code of the types they
                 # are instantiated with: `iter.collect::<Vec<_>>()`, `x.into()` / `try_into()` to or from a Vec, `mem::take`
